@@ -13,6 +13,7 @@ package main
 
 import (
 	"bytes"
+	"crypto/sha1"
 	"encoding/gob"
 	"encoding/hex"
 	"fmt"
@@ -59,7 +60,7 @@ type scn struct {
 
 func parseScn(mode, cache, pb, kinds, pre string) (scn, bool) {
 	s := scn{mode: mode, cache: cache, pb: pb, kinds: kinds}
-	if (mode != "x" && mode != "f") || (cache != "c" && cache != "n") || (pb != "p" && pb != "-") || kinds == "" {
+	if (mode != "x" && mode != "f") || (cache != "c" && cache != "n") || (pb != "p" && pb != "-" && pb != "g" && pb != "b") || kinds == "" || ((pb == "g" || pb == "b") && kinds != "f") {
 		return s, false
 	}
 	for _, c := range kinds {
@@ -164,6 +165,24 @@ func (s scn) expected(tree string, i int) string {
 	return "f:" + hex.EncodeToString([]byte(fmt.Sprintf("%so%d\n", src, i)))
 }
 
+// verifies: does a build of `tree` pass the verification of the declared hashes? (pb token g: hashes of both trees
+// declared; b: only T0's, so a build of T1 fails with "Bad output hash" and leaves no output)
+func (s scn) verifies(tree string) bool { return !(s.pb == "b" && tree == "T1") }
+
+func (s scn) declaredHashes() string {
+	if s.pb != "g" && s.pb != "b" {
+		return ""
+	}
+	h := func(tree string) string {
+		b, _ := hex.DecodeString(strings.TrimPrefix(s.expected(tree, 0), "f:"))
+		return fmt.Sprintf("%x", sha1.Sum(b))
+	}
+	if s.pb == "g" {
+		return fmt.Sprintf(", hashes=[%q, %q]", h("T0"), h("T1"))
+	}
+	return fmt.Sprintf(", hashes=[%q]", h("T0"))
+}
+
 func (s scn) buildFile() string {
 	var outs, cmds []string
 	for i := range s.kinds {
@@ -176,6 +195,7 @@ func (s scn) buildFile() string {
 		pre = "def _pb(name, output):\n    pass\n"
 		pb = ", post_build=_pb"
 	}
+	pb += s.declaredHashes()
 	return fmt.Sprintf("%sgenrule(name=\"t\", srcs=[\"x.txt\"], outs=[%s], cmd=%q%s)\n", pre, strings.Join(outs, ", "), strings.Join(cmds, " && "), pb)
 }
 
@@ -473,6 +493,16 @@ func (f *famInfo) init(s scn) {
 			in := inst{nextDir("clean")}
 			s.writeSources(in, tree)
 			r := runPlain(in, []string{"//p:t"}, s.cache == "n", false, "", func() { os.RemoveAll(filepath.Join(in.repo(), "plz-out")) })
+			if !s.verifies(tree) {
+				// the declared hashes do not match: the clean build must FAIL and leave no output
+				if r.rc == 0 {
+					f.err = "clean build of " + tree + " should fail its declared hashes: " + r.out
+					return
+				}
+				f.clean[tree] = s.renderAll(in)
+				os.RemoveAll(in.dir)
+				continue
+			}
 			if r.rc != 0 {
 				f.err = "clean build of " + tree + " failed: " + r.out
 				return
@@ -491,13 +521,14 @@ func (f *famInfo) init(s scn) {
 			}
 			if tree == "T0" {
 				f.s0 = st
+				f.gob1, _ = os.ReadFile(filepath.Join(in.gen(), mdName))
 			} else {
 				f.s1 = st
 				f.gob1, _ = os.ReadFile(filepath.Join(in.gen(), mdName))
 			}
 			os.RemoveAll(in.dir)
 		}
-		if bytes.Equal(f.s0, f.s1) {
+		if f.s1 != nil && bytes.Equal(f.s0, f.s1) {
 			f.err = "stamps of T0 and T1 are equal"
 		}
 	})
@@ -562,8 +593,8 @@ func (s scn) trace(f *famInfo) ([]string, string) {
 	defer os.RemoveAll(in.dir)
 	must(os.WriteFile(filepath.Join(in.repo(), "p/x.txt"), []byte("T1\n"), 0o644))
 	r := runPlz(in, []string{"//p:t"}, s.cache == "n", s.pre == "cur", "//p:t", -1, 0)
-	if r.rc != 0 {
-		return nil, "trace build failed: " + r.out
+	if (r.rc != 0) == s.verifies("T1") { // (the text of the failure is not always flushed: only the exit status is relied on)
+		return nil, "trace build failed: " + r.out + fmt.Sprintf(" rc=%d", r.rc)
 	}
 	t := traceNames(r.log)
 	f.traceMu.Lock()
@@ -586,8 +617,10 @@ func (s scn) classifyStamp(f *famInfo, b []byte, fb bool) string {
 		return "none"
 	case bytes.Equal(b, f.s0):
 		return "s0"
-	case bytes.Equal(b, f.s1):
+	case f.s1 != nil && bytes.Equal(b, f.s1):
 		return "s1"
+	case f.s1 == nil && len(b) == 100:
+		return "s1" // no complete build of T1 exists (it fails its declared hashes): a full record other than T0's is T1's
 	case fb && len(b) < 100:
 		return "trunc"
 	}
@@ -674,6 +707,22 @@ func (s scn) emulate(f *famInfo, in inst, point string, j int) bool {
 func (s scn) recover(f *famInfo, in inst, tree string) (string, runRes) {
 	must(os.WriteFile(filepath.Join(in.repo(), "p/x.txt"), []byte(tree+"\n"), 0o644))
 	r := runPlz(in, []string{"//p:t"}, s.cache == "n", false, "//p:t", -1, 0)
+	if !s.verifies(tree) {
+		// a clean build of this tree fails its declared hashes and leaves nothing: so must this build
+		if r.rc != 0 {
+			if s.renderAll(in) == f.clean[tree] {
+				return "next=fail-verify final=missing", r
+			}
+			return "next=fail-verify final=left", r
+		}
+		next := "skip"
+		for _, l := range r.log {
+			if strings.HasPrefix(l, "prepare ") {
+				next = "rebuild"
+			}
+		}
+		return "next=" + next + " final=unverified", r
+	}
 	fin := func() string {
 		if s.renderAll(in) == f.clean[tree] {
 			return "clean"
@@ -737,7 +786,7 @@ func runCrash(op string, s scn, k, j int, next string) caseRes {
 			res.out = "trace-diverged " + strings.Join(got, ",")
 			return res
 		}
-	} else if r.rc != 0 {
+	} else if (r.rc != 0) == s.verifies("T1") {
 		res.out = fmt.Sprintf("build-failed rc=%d", r.rc)
 		res.fails = append(res.fails, oracleFail{"interrupted-build-failed", op + " # " + r.out})
 		return res
@@ -771,6 +820,9 @@ func (s scn) judge(f *famInfo, in inst, res *caseRes, op, next, point string, in
 		res.counts = append(res.counts, "inside:"+strings.SplitN(point, ":", 2)[0])
 	}
 	detail := op + " # state " + state + " # " + rec
+	if !s.verifies(tree) && rec != "next=fail-verify final=missing" {
+		res.fails = append(res.fails, oracleFail{"unverified-output-trusted-after-crash", detail + " # clean build of " + tree + " fails with Bad output hash; " + lastLine(rr.out)})
+	}
 	if strings.Contains(rec, "final=stale") {
 		class := "recovered-differs-from-clean"
 		for i := range s.kinds {
@@ -786,7 +838,7 @@ func (s scn) judge(f *famInfo, in inst, res *caseRes, op, next, point string, in
 		}
 		res.fails = append(res.fails, oracleFail{class, detail})
 	}
-	if strings.HasPrefix(rec, "next=fail") {
+	if strings.HasPrefix(rec, "next=fail ") {
 		class := "recovery-build-fails"
 		mdState := strings.TrimPrefix(strings.Fields(state)[0], "md=")
 		if strings.Contains(rec, "second=fail") {
@@ -1464,11 +1516,21 @@ func main() {
 		add(mode, "n", "-", "f", "cur-rmmd")
 		add(mode, "n", "p", "ff", "old:01")
 		add(mode, "c", "-", "fff", "old:101")
+		add(mode, "n", "g", "f", "old:1")
+		add(mode, "n", "b", "f", "old:1")
+		add(mode, "c", "b", "f", "none")
 		add(mode, "n", "-", "s", "old:1")
 		add(mode, "n", "-", "fs", "old:11")
 	}
 	nScn := r.N(5, len(pool))
 	lib.Shuffle(rng, pool)
+	// a target whose declared hashes fail is always among the chosen scenarios (its failure path is short and cheap)
+	for i, s := range pool {
+		if s.pb == "b" && s.pre == "old" && s.mode == lib.Pick(rng, []string{"x", "f"}) {
+			pool[0], pool[i] = pool[i], pool[0]
+			break
+		}
+	}
 	chosen := pool[:nScn]
 	var ops []string
 	for _, s := range chosen {
@@ -1484,10 +1546,20 @@ func main() {
 			continue
 		}
 		cuts := cutPoints(s, tr)
-		lib.Shuffle(rng, cuts)
-		if len(cuts) > perScn {
-			cuts = cuts[:perScn]
+		var must [][2]int
+		if s.pb == "b" && len(cuts) > 5 { // the whole failure path: everything from the last move to after RemoveOutputs
+			must = append(must, cuts[len(cuts)-5:]...)
+			cuts = cuts[:len(cuts)-5]
 		}
+		lib.Shuffle(rng, cuts)
+		if len(cuts)+len(must) > perScn {
+			n := perScn - len(must)
+			if n < 1 {
+				n = 1
+			}
+			cuts = cuts[:n]
+		}
+		cuts = append(cuts, must...)
 		for _, c := range cuts {
 			next := "same"
 			if r.Thorough() {
